@@ -131,6 +131,10 @@ std::vector<TecmpPayloadPtr> TECMP::Decoder::GetInterfacePayload(const uint8_t* 
     // Get base values
     InterfacePayload payload;
     std::size_t busDataOffset = 12;
+    // The generic part has to be there before it is copied and before the entries are counted
+    if (size < busDataOffset)
+        return payloads;
+
     payload.setGenericData(payloadData);
 
     while (size - busDataOffset >= 12)
